@@ -1338,6 +1338,13 @@ func (s *Store) restoreDBFromBackup(ctx context.Context, name string) (newPos lt
 	}
 	newPos = db.Pos()
 
+	// The backup service holds nothing beyond the restored position. A
+	// high-water mark left over from uploads of the replaced history would let
+	// retention remove new transaction files before they are backed up.
+	if db.HWM() > newPos.TXID {
+		db.SetHWM(newPos.TXID)
+	}
+
 	slog.Warn("database restore complete",
 		slog.String("name", name),
 		slog.String("pos", newPos.String()),
